@@ -19,7 +19,25 @@ ASSUMPTIONS = [
     'has a slack of one maximum packet, rounding of the stamps can only reorder two packets whose exact stamps differ by a few ulps',
 ]
 TRUSTED_EXTRA = ['the kernel guarantees (G1-G3) that make `tick` admissible only at quiescence are theorems of model K (C01), assumed for the device LTS',
-                 'heapq returns an item that is minimal under PriorityItem.__lt__ (checked on every hand-off by the model, which rejects a non-minimal choice)']
+                 'heapq returns an item that is minimal under PriorityItem.__lt__ (checked on every hand-off by the model, which rejects a non-minimal choice)',
+                 'py2lean/elem.py + elements.py (typed AST-subset translator; hand-written per-class field schema of WFQ / VC objects, declared effects '
+                 '`add_packet_to_queue`, `active_set.add`, `store.put(PriorityItem((stamp, now), packet))`, the active-set loop as a fold over the '
+                 'list of active weights); the bridge theorems C14.wfq_put_/wfq_vtime_/vc_put_/send_delay_generated_eq_model tie its output to the model']
+BRIDGES = ['C14.wfq_put_generated_eq_model', 'C14.wfq_vtime_generated_eq_model', 'C14.vc_put_generated_eq_model',
+           'C14.send_delay_generated_eq_model']
+HAND_MODELLED = ['WFQ.run / VC.run (generator control flow and WFQ\'s bookkeeping after a transmission: class_count, active_set.remove, reset)',
+                 'Scheduler.send_packet (control flow, per-flow counters)', 'Scheduler.add_packet_to_queue', 'WFQ.__init__ / VC.__init__',
+                 'the dict / set containers themselves (association lists in the model; the translated code sees one class)']
+_PREP = {}
+
+
+def prepare(ctx):
+    """regenerate lean/OnlVerif/Generated/Sched.lean from the source under $ONL_REPO (a translator failure or a bridge
+    theorem that no longer compiles is a broken obligation)"""
+    from py2lean import translate, elements
+    _PREP['translated'] = elements.TRANSLATED['Sched']
+    _PREP['rewritten'] = translate.regenerate_all(only=('Sched',))
+    _PREP['diff_vs_pinned'] = translate.diff_vs_pinned('Sched')
 
 
 def fairness_oracle(c, run):
@@ -122,4 +140,8 @@ def run(ctx, prop='C14', n_quick=3000, n_thorough=50000):
                    'non-trivial = distinct case with a service decision taken among packets of at least two flows, or among equal stamps',
            'samples': samples, 'traces_validated_against_impl': len(cases) - len(dis), 'action_lines_replayed': lines,
            'operation_histogram': dict(sorted(hist.items()))}
+    if prop == 'C14':
+        cov.update({'translated': _PREP.get('translated', []), 'generated_files_rewritten': _PREP.get('rewritten', []),
+                    'generated_diff_vs_pinned': _PREP.get('diff_vs_pinned', []), 'bridge_theorems': BRIDGES,
+                    'hand_modelled': HAND_MODELLED})
     return {'coverage': cov, 'disagreements': dis, 'oracle_failures': orc}
